@@ -690,7 +690,8 @@ def has_side_effect(node: ast.AST, safe_callable_whitelist: Collection[str] = fr
 
     if isinstance(node, ast.Slice):
         return any(
-            has_side_effect(child, safe_callable_whitelist) for child in (node.lower, node.upper)
+            has_side_effect(child, safe_callable_whitelist)
+            for child in (node.lower, node.upper, node.step)
         )
 
     if isinstance(node, ast.DictComp) and (
